@@ -121,17 +121,21 @@ theorem updateCIDR_facts (s : St) (k : Cidr) (f : RouteInfo → RouteInfo) :
 
 /-! ### ancestors -/
 
-theorem topBits_ancKey (c : Cidr) (l : Nat) : topBits (ancKey c l).addr l = topBits c.addr l := by
+theorem ancKey_width (c : Cidr) (l : Nat) : (ancKey c l).width = c.width := rfl
+
+theorem ancKey_v6 (c : Cidr) (l : Nat) : (ancKey c l).v6 = c.v6 := rfl
+
+theorem topBits_ancKey (c : Cidr) (l : Nat) : topBits c.width (ancKey c l).addr l = topBits c.width c.addr l := by
   simp only [topBits, ancKey]
   exact Nat.mul_div_cancel _ (Nat.two_pow_pos _)
 
 theorem ancKey_len (c : Cidr) (l : Nat) : (ancKey c l).len = l := rfl
 
 theorem ancKey_contains (c : Cidr) (l : Nat) : (ancKey c l).containsAddr c.addr = true := by
-  simp [Cidr.containsAddr, ancKey_len, topBits_ancKey]
+  simp [Cidr.containsAddr, ancKey_len, ancKey_width, topBits_ancKey]
 
 theorem ancKey_covers (c : Cidr) (l : Nat) (h : l < c.len) : (ancKey c l).covers c = true := by
-  simp [Cidr.covers, ancKey_len, ancKey_contains, Nat.le_of_lt h]
+  simp [Cidr.covers, ancKey_len, ancKey_v6, ancKey_contains, Nat.le_of_lt h]
 
 theorem ancKey_ne (c : Cidr) (l : Nat) (h : l < c.len) : ancKey c l ≠ c := by
   intro e
@@ -166,7 +170,7 @@ structure Step (s s' : St) : Prop where
   me : s'.me = s.me
   mono : ∀ d, d ∈ s.dirty → d ∈ s'.dirty
   same : ∀ c, c ∉ s'.dirty → s'.view c = s.view c
-  anc : ∀ c, c ∉ s'.dirty → s'.view c ≠ {} → c.len ≤ 32 →
+  anc : ∀ c, c ∉ s'.dirty → s'.view c ≠ {} → c.len ≤ c.width →
     ∀ l, l < c.len → s'.view (ancKey c l) = s.view (ancKey c l)
 
 theorem Step.refl (s : St) : Step s s := ⟨rfl, fun _ h => h, fun _ _ => rfl, fun _ _ _ _ _ _ => rfl⟩
@@ -194,7 +198,7 @@ cover every present CIDR below `k` whenever the entry really changed. -/
 theorem Step.updateCIDR_cover (s : St) (k : Cidr) (f : RouteInfo → RouteInfo) (s2 : St)
     (htrie : s2.trie = ((s.updateCIDR k f).1).trie) (hme : s2.me = s.me)
     (hmono : ∀ d, d ∈ ((s.updateCIDR k f).1).dirty → d ∈ s2.dirty)
-    (hcover : f (s.get k) ≠ s.get k → ∀ c l, l < c.len → c.len ≤ 32 → ancKey c l = k → s.view c ≠ {} → c ∈ s2.dirty) :
+    (hcover : f (s.get k) ≠ s.get k → ∀ c l, l < c.len → c.len ≤ c.width → ancKey c l = k → s.view c ≠ {} → c ∈ s2.dirty) :
     Step s s2 := by
   obtain ⟨_, _, _, _, _, _, hv, hd, _, _⟩ := updateCIDR_facts s k f
   have hsame : ∀ c, c ∉ s2.dirty → s2.view c = s.view c := by
@@ -218,13 +222,15 @@ theorem Step.updateCIDR_cover (s : St) (k : Cidr) (f : RouteInfo → RouteInfo) 
       exact absurd (hcover hch c l hlt hl hk.symm this) hc
   · simp [hk]
 
-/-- an edit at a /32 key (hosts, workload and tunnel refs, sent flag) affects nothing below it. -/
-theorem Step.updateCIDR_host (s : St) (k : Cidr) (f : RouteInfo → RouteInfo) (hk : k.len = 32) :
+/-- an edit at a single-address key (/32, /128: hosts, workload and tunnel refs) affects nothing below it. -/
+theorem Step.updateCIDR_host (s : St) (k : Cidr) (f : RouteInfo → RouteInfo) (hk : k.len = k.width) :
     Step s (s.updateCIDR k f).1 := by
   apply Step.updateCIDR_cover s k f _ rfl (updateCIDR_facts s k f).1 (fun d h => h)
   intro _ c l hlt hl he _
-  have := congrArg Cidr.len he
-  rw [ancKey_len] at this
+  have h1 := congrArg Cidr.len he
+  have h2 := congrArg Cidr.width he
+  rw [ancKey_len] at h1
+  rw [ancKey_width] at h2
   omega
 
 theorem Step.updatePool (s : St) (k : Cidr) (p : Pool) : Step s (s.updatePool k p) := by
@@ -237,14 +243,14 @@ theorem Step.updatePool (s : St) (k : Cidr) (p : Pool) : Step s (s.updatePool k 
     simp only [hc, if_true]
     unfold St.markChildrenDirty
     obtain ⟨h1, _, h3, _, _, _, _, h8⟩ := foldl_markDirty (fun e : Cidr × RouteInfo => e.1)
-      (((s.updateCIDR k f).1).trie.filter (fun e => k.containsAddr e.1.addr)) (s.updateCIDR k f).1
+      (((s.updateCIDR k f).1).trie.filter (fun e => e.1.v6 == k.v6 && k.containsAddr e.1.addr)) (s.updateCIDR k f).1
     apply Step.updateCIDR_cover s k f _ h1 (h3.trans hme) (fun d h => (h8 d).2 (Or.inl h))
     intro _ c l hlt _ he hne
     obtain ⟨ri, hri⟩ := view_ne_empty s c hne
     have hck : c ≠ k := by rw [← he]; exact (ancKey_ne c l hlt).symm
     have hmem := aget_some_mem _ c ri ((hag c hck).trans hri)
     refine (h8 c).2 (Or.inr ⟨(c, ri), List.mem_filter.2 ⟨hmem, ?_⟩, rfl⟩)
-    rw [← he]; exact ancKey_contains c l
+    rw [← he]; simp [ancKey_v6, ancKey_contains c l]
 
 theorem Step.removePool (s : St) (k : Cidr) : Step s (s.removePool k) := by
   unfold St.removePool
@@ -256,14 +262,14 @@ theorem Step.removePool (s : St) (k : Cidr) : Step s (s.removePool k) := by
     simp only [hc, if_true]
     unfold St.markChildrenDirty
     obtain ⟨h1, _, h3, _, _, _, _, h8⟩ := foldl_markDirty (fun e : Cidr × RouteInfo => e.1)
-      (((s.updateCIDR k f).1).trie.filter (fun e => k.containsAddr e.1.addr)) (s.updateCIDR k f).1
+      (((s.updateCIDR k f).1).trie.filter (fun e => e.1.v6 == k.v6 && k.containsAddr e.1.addr)) (s.updateCIDR k f).1
     apply Step.updateCIDR_cover s k f _ h1 (h3.trans hme) (fun d h => (h8 d).2 (Or.inl h))
     intro _ c l hlt _ he hne
     obtain ⟨ri, hri⟩ := view_ne_empty s c hne
     have hck : c ≠ k := by rw [← he]; exact (ancKey_ne c l hlt).symm
     have hmem := aget_some_mem _ c ri ((hag c hck).trans hri)
     refine (h8 c).2 (Or.inr ⟨(c, ri), List.mem_filter.2 ⟨hmem, ?_⟩, rfl⟩)
-    rw [← he]; exact ancKey_contains c l
+    rw [← he]; simp [ancKey_v6, ancKey_contains c l]
 
 theorem mem_descendants (s : St) (k c : Cidr) (ri : RouteInfo) (hmem : (c, ri) ∈ s.trie)
     (hcov : k.covers c = true) (hne : c ≠ k) : c ∈ s.descendants k := by
@@ -337,7 +343,7 @@ theorem updatePool_rest (s : St) (k : Cidr) (p : Pool) :
     simp only [hc, if_true]
     unfold St.markChildrenDirty
     obtain ⟨g1, g2, _, g4, g5, g6, _, _⟩ := foldl_markDirty (fun e : Cidr × RouteInfo => e.1)
-      (((s.updateCIDR k (fun ri => { ri with pool := some p })).1).trie.filter (fun e => k.containsAddr e.1.addr))
+      (((s.updateCIDR k (fun ri => { ri with pool := some p })).1).trie.filter (fun e => e.1.v6 == k.v6 && k.containsAddr e.1.addr))
       (s.updateCIDR k (fun ri => { ri with pool := some p })).1
     exact ⟨g1, g2.trans h2, g4.trans h3, g5.trans h4, g6.trans h5⟩
 
@@ -353,7 +359,7 @@ theorem removePool_rest (s : St) (k : Cidr) :
     simp only [hc, if_true]
     unfold St.markChildrenDirty
     obtain ⟨g1, g2, _, g4, g5, g6, _, _⟩ := foldl_markDirty (fun e : Cidr × RouteInfo => e.1)
-      (((s.updateCIDR k (fun ri => { ri with pool := none })).1).trie.filter (fun e => k.containsAddr e.1.addr))
+      (((s.updateCIDR k (fun ri => { ri with pool := none })).1).trie.filter (fun e => e.1.v6 == k.v6 && k.containsAddr e.1.addr))
       (s.updateCIDR k (fun ri => { ri with pool := none })).1
     exact ⟨g1, g2.trans h2, g4.trans h3, g5.trans h4, g6.trans h5⟩
 
@@ -415,10 +421,10 @@ theorem Edit.removeBlockRoute (k : Cidr) :
   intro s k'
   exact view_after s k _ (fun v => { v with block := none }) _ (removeBlockRoute_rest s k).1 (fun _ => rfl) k'
 
-/-- any `updateCIDR` at a /32 key whose function commutes with `strip`. -/
-theorem Edit.host (a : Nat) (g f : RouteInfo → RouteInfo) (hcomm : ∀ ri, strip (g ri) = f (strip ri)) :
-    Edit (fun s => (s.updateCIDR (Cidr.host a) g).1) (Cidr.host a) f := by
-  refine ⟨fun s => Step.updateCIDR_host s _ g rfl, ?_, fun s => (updateCIDR_facts s _ g).2.1,
+/-- any `updateCIDR` at a single-address key whose function commutes with `strip`. -/
+theorem Edit.host (k : Cidr) (hk : k.len = k.width) (g f : RouteInfo → RouteInfo) (hcomm : ∀ ri, strip (g ri) = f (strip ri)) :
+    Edit (fun s => (s.updateCIDR k g).1) k f := by
+  refine ⟨fun s => Step.updateCIDR_host s _ g hk, ?_, fun s => (updateCIDR_facts s _ g).2.1,
     fun s => (updateCIDR_facts s _ g).2.2.1, fun s => (updateCIDR_facts s _ g).2.2.2.1,
     fun s => (updateCIDR_facts s _ g).2.2.2.2.1⟩
   intro s k'
@@ -438,10 +444,10 @@ def Tracked (s : St) (c : Cidr) (n : Nat) : Prop :=
   (s.view c).block = some n ∧ (s.view c).hosts = [] ∧ (s.view c).refs = []
 
 structure Aux (s : St) : Prop where
-  /-- hosts, workload refs and tunnel refs only live at /32s -/
-  h32 : ∀ k, ((s.view k).hosts ≠ [] ∨ (s.view k).refs ≠ []) → k.len = 32
-  /-- no trie key is longer than /32 -/
-  l32 : ∀ k, s.view k ≠ {} → k.len ≤ 32
+  /-- hosts, workload refs and tunnel refs only live at single addresses (/32, /128) -/
+  h32 : ∀ k, ((s.view k).hosts ≠ [] ∨ (s.view k).refs ≠ []) → k.len = k.width
+  /-- no trie key is longer than its family's address width -/
+  l32 : ∀ k, s.view k ≠ {} → k.len ≤ k.width
   /-- every block route is indexed under its node in `nodeRoutes` -/
   nr : ∀ c n, (s.view c).block = some n → ∃ j, aget s.nodeRoutes (n, c) = some (j + 1)
 
@@ -453,8 +459,8 @@ theorem Aux.congr (s s' : St) (ht : s'.trie = s.trie) (hn : s'.nodeRoutes = s.no
 
 /-- an edit that does not touch the block field keeps `Aux`. -/
 theorem Aux.edit {P : St → St} {k : Cidr} {f : RouteInfo → RouteInfo} (hE : Edit P k f) (s : St) (ha : Aux s)
-    (hh : k.len = 32 ∨ ∀ v, (f v).hosts = v.hosts ∧ (f v).refs = v.refs)
-    (hl : f (s.view k) ≠ {} → k.len ≤ 32) (hb : ∀ v, (f v).block = v.block) : Aux (P s) := by
+    (hh : k.len = k.width ∨ ∀ v, (f v).hosts = v.hosts ∧ (f v).refs = v.refs)
+    (hl : f (s.view k) ≠ {} → k.len ≤ k.width) (hb : ∀ v, (f v).block = v.block) : Aux (P s) := by
   refine ⟨fun k' => ?_, fun k' => ?_, fun c n => ?_⟩
   · rw [hE.view s k']
     by_cases hk : k = k'
@@ -599,7 +605,7 @@ theorem Aux.delBody (s : St) (r : Nat × Cidr) (ha : Aux s) :
       exact hj
 
 /-- the "add" step of `OnBlockUpdate`. -/
-theorem Aux.addBody (s : St) (r : Nat × Cidr) (ha : Aux s) (hl : r.2.len ≤ 32) :
+theorem Aux.addBody (s : St) (r : Nat × Cidr) (ha : Aux s) (hl : r.2.len ≤ r.2.width) :
     Aux ({ s.updateBlockRoute r.2 r.1 with nodeRoutes := nrAdd (s.updateBlockRoute r.2 r.1).nodeRoutes r }) := by
   have hE := Edit.updateBlockRoute r.2 r.1
   have hv : ∀ k', ({ s.updateBlockRoute r.2 r.1 with nodeRoutes := nrAdd (s.updateBlockRoute r.2 r.1).nodeRoutes r } : St).view k'
